@@ -43,13 +43,13 @@ _c("C12", "exploration", "model-based property testing (proptest) in virtual tim
    "Add/Get/Kill/Advance/Cleanup histories on the real SessionPool with in-memory sessions; predicate: never a closed session from Get, only expired sessions reaped, never below min idle, at most min idle expired survivors, idle_count agrees. Pool level only so far (the client-level in-use check is a Lab-S family).",
    "which survivor is kept is left open; exact-boundary ages may go either way")
 _c("C14", "exploration", "property-based testing (proptest) in virtual time over an (interval, timeout) grid x peer behaviours vs a reference spec of allowed close instants",
-   "Real client session with heartbeat config against the real server session (delayed pipes) or a scripted peer that falls silent at generated instants, with/without traffic and send-buffer exhaustion; safe/detect/answer clauses on sampled is_closed.",
+   "Real client session with heartbeat config against the real server session (delayed pipes) or a scripted peer that falls silent at generated instants, with/without traffic and send-buffer exhaustion; safe/detect/answer clauses on sampled is_closed. Plus a real-time glue family: the real Client (settings 1-3 s) against the reference server, answering or silent.",
    "is_closed sampled every 100 ms virtual; 150 ms slack on the detect bound")
 _c("C17", "exploration", "property-based differential testing (proptest) of the request parser/rewriter against a reference HTTP reading; grammar-based request generator",
    "Generated well-formed proxy requests (all target forms, IPv6, ports, header sets up to ~64 KiB, Host in any case/position, body prefix) through the private parse+rewrite functions (H6). Pure level; listener, CONNECT reply order and early data are judged in the Lab-S family when built.",
    "generator restricted to what senders produce (lower-case scheme, no userinfo, UTF-8); reference per RFC 7230 §5.3/5.4")
 _c("C18", "fault_enumeration", "enumeration of on-disk fault states (every truncation prefix, missing/garbled/mismatched/expired files) + property-based reload histories (proptest) vs a last-good-pair model, with real in-memory TLS handshakes",
-   "After every step the leaf certificate presented in a real handshake (signature verified), cert info and counters must match the last pair whose reload succeeded; old connections keep working.",
+   "After every step the leaf certificate presented in a real handshake (signature verified), cert info and counters must match the last pair whose reload succeeded; old connections keep working. Plus the real Server::new_with_reloadable_tls accept path on loopback.",
    "prefixes ending inside the final PEM line may load or not; watcher/debounce not driven")
 
 _c("C07", "exploration", "property-based testing (proptest): round trip + differential against a reference SOCKS address codec (Lab-M), resolver histories against a fake DNS, end-to-end dial histories on loopback",
